@@ -229,6 +229,7 @@ fn fast_eq_check(a: &LuaType, b: &LuaType) -> bool {
         | (LuaType::Number, LuaType::Number)
         | (LuaType::Io, LuaType::Io)
         | (LuaType::Global, LuaType::Global)
+        | (LuaType::SelfInfer, LuaType::SelfInfer)
         | (LuaType::Unknown, LuaType::Unknown)
         | (LuaType::Any, LuaType::Any) => true,
         (LuaType::Ref(type_id_left), LuaType::Ref(type_id_right)) => type_id_left == type_id_right,
@@ -241,6 +242,10 @@ fn fast_eq_check(a: &LuaType, b: &LuaType) -> bool {
         (LuaType::Generic(generic_left), LuaType::Generic(generic_right)) => {
             generic_left == generic_right
         }
+        // No branch checker accepts these when both sides are the same type.
+        (LuaType::StrTplRef(left), LuaType::StrTplRef(right)) => left == right,
+        (LuaType::Conditional(left), LuaType::Conditional(right)) => left == right,
+        (LuaType::Mapped(left), LuaType::Mapped(right)) => left == right,
         _ => false,
     }
 }
